@@ -84,44 +84,95 @@ def run_X1(chk):
             chk.verdict("X1", (f, st), st, True if ok else False,
                         f"expand_krylov_space: `{A.short(st, 60)}` must record <V[row]|{w}> (basis vector conjugated) under H[row, {j}]")
     chk.require(n_ov >= 2, "expand_krylov_space: overlap stores not found")
-    # orthogonalisation: w = w.add(<basis...>, amplitudes=[1, -H[..], ...])
+    # orthogonalisation: w = w.add(<basis...>, amplitudes=[1, -H[..], ...]).  Operands and amplitudes may be given in place, through
+    # temporaries, selected by if/else, built by an append loop or by a comprehension: every alternative is brought to one of two forms
+    #   explicit   operands [V[a], ..] with amplitudes [1, -H[a, j], ..]
+    #   all-basis  operands *V         with amplitudes [1] ++ [-H[i, j] for i in range(j + 1)], the overlaps H[i, j] stored for those i
     adds = [n for n in ast.walk(loop) if isinstance(n, ast.Assign) and A.text(n.targets[0]) == w and isinstance(n.value, ast.Call)
             and A.callee_attr(n.value) == "add" and A.text(n.value.func.value) == w]
-    chk.require(len(adds) >= 3, "expand_krylov_space: orthogonalisation steps `w = w.add(...)` not found (3 confirmed by hand)")
+    chk.require(len(adds) >= 1, "expand_krylov_space: orthogonalisation steps `w = w.add(...)` not found")
     b = A.local_bindings(fn)
+
+    def overlap_loop(target_i):
+        """a loop `for i in range(j + 1)` in the Krylov loop that stores H[i, j]"""
+        for il in ast.walk(loop):
+            if isinstance(il, ast.For) and isinstance(il.iter, ast.Call) and A.call_name(il.iter) == "range" and len(il.iter.args) == 1 \
+                    and _sub_text(il.iter.args[0]) == f"{j}+1" and any(isinstance(s_, ast.Assign) and _sub_text(s_.targets[0]) == f"{Hn}[{A.text(il.target)},{j}]" for s_ in ast.walk(il)):
+                return True
+        return False
+
+    def neg_H_of(e, ivar):
+        """-H[(ivar, j)] (possibly through a temporary that was stored under H[ivar, j])"""
+        if isinstance(e, ast.UnaryOp) and isinstance(e.op, ast.USub):
+            o = e.operand
+            if isinstance(o, ast.Name) and o.id in same_as:
+                return same_as[o.id] == f"{Hn}[{ivar},{j}]"
+            return _sub_text(o) == f"{Hn}[{ivar},{j}]"
+        return False
+
+    def all_basis_amplitudes(amp):
+        if isinstance(amp, ast.BinOp) and isinstance(amp.op, ast.Add) and isinstance(amp.left, ast.List) and len(amp.left.elts) == 1 and A.neg_const(amp.left.elts[0]) == 1 \
+                and isinstance(amp.right, (ast.ListComp, ast.GeneratorExp)):
+            comp = amp.right
+        elif isinstance(amp, ast.List) and len(amp.elts) == 2 and A.neg_const(amp.elts[0]) == 1 and isinstance(amp.elts[1], ast.Starred) \
+                and isinstance(amp.elts[1].value, (ast.ListComp, ast.GeneratorExp)):
+            comp = amp.elts[1].value
+        else:
+            return False
+        g = comp.generators[0]
+        return len(comp.generators) == 1 and not g.ifs and isinstance(g.iter, ast.Call) and A.call_name(g.iter) == "range" and len(g.iter.args) == 1 \
+            and _sub_text(g.iter.args[0]) == f"{j}+1" and neg_H_of(comp.elt, A.text(g.target)) and overlap_loop(A.text(g.target))
+
+    from ..core.knob import KnobEval
+    ke = KnobEval(fn, {})
+
+    def reaching(name, at):
+        return [(s_, v, k) for s_, v, k in ke._defs(name, at)]
+
+    def alternatives(c, at):
+        """[(operand nodes | ('*', name), amplitude node)]"""
+        amp = A.kwarg(c, "amplitudes")
+        ops = list(c.args)
+        if len(ops) == 1 and isinstance(ops[0], ast.Starred) and isinstance(ops[0].value, ast.Name) and ops[0].value.id != Vn and isinstance(amp, ast.Name):
+            # *vectors / amplitudes bound together, alternative by alternative
+            vn, an = ops[0].value.id, amp.id
+            out = []
+            for st_v, vv, kv in reaching(vn, at):
+                for st_a, av, ka in reaching(an, at):
+                    if st_v is st_a and vv is not None and av is not None:
+                        out.append((list(vv.elts) if isinstance(vv, (ast.List, ast.Tuple)) else None, av))
+            return out or [(None, None)]
+        if isinstance(amp, ast.Name) and amp.id in b:
+            defs_ = [v for s_, v, k in reaching(amp.id, at) if k == "assign" and v is not None]
+            ap = [x for x in ast.walk(loop) if isinstance(x, ast.Call) and A.callee_attr(x) == "append" and A.text(x.func.value) == amp.id]
+            if len(defs_) == 1 and isinstance(defs_[0], ast.List) and len(defs_[0].elts) == 1 and A.neg_const(defs_[0].elts[0]) == 1 and len(ap) == 1:
+                il = par[par[ap[0]]]
+                if isinstance(il, ast.For):
+                    comp = ast.ListComp(elt=ap[0].args[0], generators=[ast.comprehension(target=il.target, iter=il.iter, ifs=[], is_async=0)])
+                    return [(ops, ast.BinOp(left=defs_[0], op=ast.Add(), right=comp))]
+            return [(ops, v) for v in defs_] or [(ops, None)]
+        return [(ops, amp)]
     for st in adds:
         c = st.value
-        amp = A.kwarg(c, "amplitudes")
-        ops = c.args
-        if isinstance(amp, ast.List):
-            # explicit list: [1, -H[a, j], ...] paired with operands V[a]
-            ok = A.neg_const(amp.elts[0]) == 1 and len(amp.elts) == len(ops) + 1
-            for e, o in zip(amp.elts[1:], ops):
-                good = isinstance(e, ast.UnaryOp) and isinstance(e.op, ast.USub) and isinstance(e.operand, ast.Subscript) and A.text(e.operand.value) == Hn \
-                    and isinstance(e.operand.slice, ast.Tuple) and isinstance(o, ast.Subscript) and A.text(o.value) == Vn \
-                    and A.text(e.operand.slice.elts[0]) == A.text(o.slice) and A.text(e.operand.slice.elts[1]) == j
-                ok = ok and good
-            chk.verdict("X1", (f, st), st, True if ok else False,
-                        f"expand_krylov_space: `{A.short(st, 70)}`: each basis vector V[a] must be subtracted with amplitude -H[a, {j}] (the overlap just recorded)")
-        elif isinstance(amp, ast.Name):
-            # accumulated list: amplitudes = [1]; for i in range(j + 1): H[i, j] = ...; amplitudes.append(-H[i, j]);  operands *V
-            init = [v for s_, v, k in b.get(amp.id, []) if k == "assign"]
-            ap = [x for x in ast.walk(loop) if isinstance(x, ast.Call) and A.callee_attr(x) == "append" and A.text(x.func.value) == amp.id]
-            ok = len(init) == 1 and isinstance(init[0], ast.List) and len(init[0].elts) == 1 and A.neg_const(init[0].elts[0]) == 1 and len(ap) == 1 \
-                and len(ops) == 1 and isinstance(ops[0], ast.Starred) and A.text(ops[0].value) == Vn
-            if ok:
-                il = par[par[ap[0]]]
-                e = ap[0].args[0]
-                if isinstance(e, ast.UnaryOp) and isinstance(e.op, ast.USub) and isinstance(e.operand, ast.Name) and e.operand.id in same_as:
-                    e = ast.UnaryOp(op=ast.USub(), operand=ast.parse(same_as[e.operand.id], mode="eval").body)
-                ok = isinstance(il, ast.For) and isinstance(il.iter, ast.Call) and A.call_name(il.iter) == "range" and len(il.iter.args) == 1 \
-                    and _sub_text(il.iter.args[0]) == f"{j}+1" and isinstance(e, ast.UnaryOp) and isinstance(e.op, ast.USub) \
-                    and _sub_text(e.operand) == f"{Hn}[{A.text(il.target)},{j}]" \
-                    and any(isinstance(s_, ast.Assign) and _sub_text(s_.targets[0]) == f"{Hn}[{A.text(il.target)},{j}]" for s_ in il.body)
-            chk.verdict("X1", (f, st), st, True if ok else False,
-                        f"expand_krylov_space (Arnoldi): the amplitudes must be [1] followed by -H[i, {j}] for i = 0..{j}, matching the operands ({w}, *{Vn})")
-        else:
-            chk.bad("X1", (f, st), st, "expand_krylov_space: amplitudes of the orthogonalisation are not recognisable")
+        for ops, amp in alternatives(c, st):
+            if ops is None or amp is None:
+                chk.bad("X1", (f, st), st, "expand_krylov_space: operands / amplitudes of the orthogonalisation are not recognisable")
+                continue
+            if len(ops) == 1 and isinstance(ops[0], ast.Starred) and A.text(ops[0].value) == Vn:
+                ok = all_basis_amplitudes(amp)
+                chk.verdict("X1", (f, st), f"{A.short(st, 50)} with amplitudes {A.short(amp, 50)}", True if ok else False,
+                            f"expand_krylov_space (Arnoldi): the amplitudes must be [1] followed by -H[i, {j}] for i = 0..{j}, matching the operands ({w}, *{Vn})")
+            elif isinstance(amp, ast.List):
+                ok = bool(amp.elts) and A.neg_const(amp.elts[0]) == 1 and len(amp.elts) == len(ops) + 1
+                for e, o in zip(amp.elts[1:], ops):
+                    good = isinstance(e, ast.UnaryOp) and isinstance(e.op, ast.USub) and isinstance(e.operand, ast.Subscript) and A.text(e.operand.value) == Hn \
+                        and isinstance(e.operand.slice, ast.Tuple) and isinstance(o, ast.Subscript) and A.text(o.value) == Vn \
+                        and A.text(e.operand.slice.elts[0]) == A.text(o.slice) and A.text(e.operand.slice.elts[1]) == j
+                    ok = ok and good
+                chk.verdict("X1", (f, st), f"{A.short(st, 50)} with {[A.text(o) for o in ops]} / {A.short(amp, 50)}", True if ok else False,
+                            f"expand_krylov_space: `{A.short(st, 70)}`: each basis vector V[a] must be subtracted with amplitude -H[a, {j}] (the overlap just recorded)")
+            else:
+                chk.bad("X1", (f, st), st, "expand_krylov_space: amplitudes of the orthogonalisation are not recognisable")
     # Lanczos: H[j-1, j] = H[j, j-1]
     sym = [n for n in stores if _sub_text(n.targets[0]) == f"{Hn}[{j}-1,{j}]"]
     chk.verdict("X1", (f, sym[0] if sym else loop), sym[0] if sym else f"{Hn}[{j}-1,{j}]", True if sym and _sub_text(sym[0].value) == f"{Hn}[{j},{j}-1]" else False,
@@ -390,10 +441,17 @@ def run_X9(chk):
     chk.require(loops, "expmv: propagation loop `while t_now < t_out` not found")
     loop = loops[0]
     now, out = loop.test.left.id, loop.test.comparators[0].id
-    adv = [n for n in ast.walk(loop) if isinstance(n, ast.AugAssign) and isinstance(n.op, ast.Add) and isinstance(n.target, ast.Name) and n.target.id == now
+    adv = [n.value for n in ast.walk(loop) if isinstance(n, ast.AugAssign) and isinstance(n.op, ast.Add) and isinstance(n.target, ast.Name) and n.target.id == now
            and isinstance(n.value, ast.Name)]
+    # t_now = t_now + tau  /  t_now = tau + t_now
+    for n in ast.walk(loop):
+        if isinstance(n, ast.Assign) and len(n.targets) == 1 and isinstance(n.targets[0], ast.Name) and n.targets[0].id == now and isinstance(n.value, ast.BinOp) \
+                and isinstance(n.value.op, ast.Add):
+            l_, r_ = n.value.left, n.value.right
+            if isinstance(l_, ast.Name) and isinstance(r_, ast.Name) and now in (l_.id, r_.id):
+                adv.append(r_ if l_.id == now else l_)
     chk.require(adv, f"expmv: `{now} += <step>` not found")
-    step = adv[0].value.id
+    step = adv[0].id
     rem = f"{out}-{now}"
 
     def bounded(e, depth=0):
